@@ -20,7 +20,7 @@ PARTIAL = ["Vector.extend / += are sequences of appends (outside 'single call');
 
 
 def gen_cases(rng, tier):
-    n = 500 if tier == "quick" else 12000
+    n = 500 if tier == "quick" else 4000
     cases = W.scripted(rng)
     for _ in range(n):
         cases.append({"seed": rng.randrange(1 << 40), "n": rng.choice([4, 8, 14, 24]), "focus": {"faulty": True}})
